@@ -224,7 +224,17 @@ func rulesC03(p *Prog, r *Report) {
 	// R03.4 floor --------------------------------------------------------------------
 	r.Rule("R03.4", "vault creation and principal burns in a vault that stays open pass principal >= DebtFloor", 4)
 	isFloor := func(v ssa.Value) bool { return p.originHasField(v, "ExtendedPairVault", "DebtFloor") }
-	notFloor := func(v ssa.Value) bool { return !isFloor(v) }
+	isCurTotal := func(v ssa.Value) bool {
+		for _, o := range p.UpOrigins(p.DeepOrigins(v), 0) {
+			if o.Kind == "call" && p.callIs(o.Call, "CheckAppExtendedPairVaultMapping", "GetAppExtendedPairVaultMappingData") {
+				return true
+			}
+		}
+		return false
+	}
+	// the principal of ONE vault: not the floor itself and not the product-wide minted statistic
+	// (a floor test on the aggregate lets every vault after the first fall below the floor)
+	notFloor := func(v ssa.Value) bool { return !isFloor(v) && !isCurTotal(v) }
 	floorG := p.cmpGuard("principal >= DebtFloor", notFloor, isFloor, RGE)
 	for _, e := range handlers {
 		if createMay.Fn(e.Fn) || (mintMay.Fn(e.Fn) && stable[e.Name] != "" && !strings.Contains(e.Name, "Withdraw")) {
